@@ -191,6 +191,98 @@ theorem readback (q q' : Obj) (indx : List Entry) (rhs : Rhs) (p : Prep) (s : Se
   exact ⟨pos, fun o ho hk => ⟨by rw [hv]; exact npAssign_readback s _ _ _ o ho hk inj,
     by rw [hm]; exact npAssign_readback s _ _ _ o ho hk inj⟩⟩
 
+/-! ### derivatives -/
+
+theorem mapM_some_mem {α β : Type} (f : α → Option β) : ∀ (l : List α) (r : List β),
+    l.mapM f = some r → r.length = l.length ∧ ∀ x ∈ l, ∃ y ∈ r, f x = some y := by
+  intro l
+  induction l with
+  | nil => intro r h; simp at h; subst h; simp
+  | cons a t ih =>
+    intro r h
+    simp only [List.mapM_cons] at h
+    cases hfa : f a with
+    | none => simp [hfa] at h
+    | some b =>
+      cases ht : t.mapM f with
+      | none => simp [hfa, ht] at h
+      | some r' =>
+        simp [hfa, ht] at h
+        subst h
+        obtain ⟨i1, i2⟩ := ih r' ht
+        refine ⟨by simp [i1], ?_⟩
+        intro x hx
+        rcases List.mem_cons.mp hx with rfl | hx'
+        · exact ⟨b, by simp, hfa⟩
+        · obtain ⟨y, hy, hfy⟩ := i2 x hx'
+          exact ⟨y, by simp [hy], hfy⟩
+
+/-- **derivs_updated_missing_as_zero.**  A successful assignment through an index that is not fully
+    masked (a) assigns the object itself, (b) assigns THROUGH THE SAME INDEX every derivative the
+    object has — from the right-hand side's derivative of that key, a missing one counting as zero
+    (carrying the right-hand side's mask) — and (c) gives the object every derivative only the
+    right-hand side has, as that derivative assigned through the same index into a zero derivative
+    (missing on the left = zero); (d) nothing else.  A fully masked index changes nothing. -/
+theorem derivs_updated_missing_as_zero (q q' : ObjD) (indx : List Entry) (rhs : RhsD) (p : Prep)
+    (hp : prepIndex q.main.shape indx = some p) (h : setitemD q indx rhs = .ok q') :
+    (p.post.all? = true → q' = q) ∧
+    (p.post.all? = false →
+      setitem q.main indx rhs.main = .ok q'.main ∧
+      (∀ kd ∈ q.derivs, ∃ d', (kd.1, d') ∈ q'.derivs ∧
+        setitem kd.2 indx ((lookupD kd.1 rhs.derivs).getD (zeroRhs rhs.main.shape rhs.main.mask)) = .ok d') ∧
+      (∀ kr ∈ rhs.derivs, (lookupD kr.1 q.derivs).isNone = true → ∃ d', (kr.1, d') ∈ q'.derivs ∧
+        setitem (zeroObj q.main.shape q'.main.mask) indx kr.2 = .ok d') ∧
+      q'.derivs.length = q.derivs.length +
+        (rhs.derivs.filter fun kr => (lookupD kr.1 q.derivs).isNone).length) := by
+  unfold setitemD at h
+  cases hm : setitem q.main indx rhs.main with
+  | indexError => simp [hm] at h
+  | valueError => simp [hm] at h
+  | ok m' =>
+    simp only [hm, hp] at h
+    constructor
+    · intro hall
+      simp only [hall, if_true, OutcomeD.ok.injEq] at h
+      exact h.symm
+    · intro hall
+      simp only [hall, Bool.false_eq_true, if_false] at h
+      generalize hold : (q.derivs.mapM fun (kd : String × Obj) =>
+          (setDeriv kd.2 indx ((lookupD kd.1 rhs.derivs).getD (zeroRhs rhs.main.shape rhs.main.mask))).map
+            fun d' => (kd.1, d')) = old at h
+      generalize hnew : ((rhs.derivs.filter fun kr => (lookupD kr.1 q.derivs).isNone).mapM
+          fun (kr : String × Rhs) =>
+            (setDeriv (zeroObj q.main.shape m'.mask) indx kr.2).map fun d' => (kr.1, d')) = new at h
+      cases old with
+      | none => simp at h
+      | some ds1 =>
+        cases new with
+        | none => simp at h
+        | some ds2 =>
+          simp only [OutcomeD.ok.injEq] at h
+          subst h
+          obtain ⟨l1, m1⟩ := mapM_some_mem _ _ _ hold
+          obtain ⟨l2, m2⟩ := mapM_some_mem _ _ _ hnew
+          have hsd : ∀ (d : Obj) (r : Rhs) (k : String) (y : String × Obj),
+              (setDeriv d indx r).map (fun d' => (k, d')) = some y →
+              y.1 = k ∧ setitem d indx r = .ok y.2 := by
+            intro d r k y hy
+            unfold setDeriv at hy
+            cases hs : setitem d indx r with
+            | ok d' => simp [hs] at hy; subst hy; exact ⟨rfl, rfl⟩
+            | indexError => simp [hs] at hy
+            | valueError => simp [hs] at hy
+          refine ⟨rfl, ?_, ?_, by simp [l1, l2]⟩
+          · intro kd hkd
+            obtain ⟨y, hy, hfy⟩ := m1 kd hkd
+            obtain ⟨e1, e2⟩ := hsd _ _ _ y hfy
+            exact ⟨y.2, by rw [← e1]; exact List.mem_append_left _ hy, e2⟩
+          · intro kr hkr hnone
+            have hmem : kr ∈ rhs.derivs.filter fun kr => (lookupD kr.1 q.derivs).isNone := by
+              simp [List.mem_filter, hkr, hnone]
+            obtain ⟨y, hy, hfy⟩ := m2 kr hmem
+            obtain ⟨e1, e2⟩ := hsd _ _ _ y hfy
+            exact ⟨y.2, by rw [← e1]; exact List.mem_append_right _ hy, e2⟩
+
 /-! ### sequences of assignments -/
 
 theorem step_shape (q : Obj) (a : List Entry × Rhs) : (step q a).shape = q.shape := by
